@@ -35,6 +35,26 @@ def answer (P P' : Prog) (e e' : Nat) : String :=
   | .ok ρ => s!"ok consts={ρ.const.length} fns={ρ.fn.length} tuples={ρ.tuple.length} types={ρ.type.length} builtins={ρ.builtin.length} resources={ρ.resource.length} exempt={exemptCount ρ P P'} strict={strictB ρ P P'}"
   | .error msg => s!"reject {msg}"
 
+def tyCtorName : Ty → String
+  | .int => "int" | .bin => "bin" | .ref => "ref" | .tuple _ => "tuple" | .part _ _ => "partial"
+  | .callable _ _ _ => "callable" | .cycle _ => "cycle" | .union _ => "union" | .process _ _ => "process"
+  | .resource _ => "resource" | .var _ => "var"
+
+/-- Coverage statistics of one shake: for every KEPT type, its constructor, whether its own index moved
+    (`m`) and whether the ids it carries were rewritten (`w`). One token per kept type whose index moved
+    or whose contents changed: `partial:mw`, `int:m`, … (comma separated; `-` when nothing moved). -/
+def renumberStats (P : Prog) (ρ : Ren) : String :=
+  let toks := ρ.type.filterMap (fun (p : Nat × Nat) =>
+    match P.types[p.1]? with
+    | some τ =>
+      let moved := p.1 != p.2
+      let rewritten := renameTy ρ τ != some τ
+      if moved || rewritten then
+        some s!"{tyCtorName τ}:{if moved then "m" else ""}{if rewritten then "w" else ""}"
+      else none
+    | none => none)
+  if toks.isEmpty then "-" else ",".intercalate toks
+
 def c10Step (st : C10State) (req : List Sx) : C10State × String :=
   match req with
   | [.list (.atom "prog" :: .atom slot :: parts)] =>
@@ -89,7 +109,7 @@ def c10Step (st : C10State) (req : List Sx) : C10State × String :=
             | some o2 => (bytecodeDiff o2.prog out.prog).isNone && o2.entry == out.entry &&
                 o2.ren.fn.all (fun p => p.1 == p.2) && o2.ren.type.all (fun p => p.1 == p.2)
             | none => false
-          (st, s!"equal entry={out.entry} validate={v}{why} idempotent={idem} kept-fns={out.marks.fns.length} kept-types={out.marks.types.length}")
+          (st, s!"equal entry={out.entry} validate={v}{why} idempotent={idem} kept-fns={out.marks.fns.length} kept-types={out.marks.types.length} renumbered={renumberStats P out.ren}")
     | _, _, _ => (st, "bad-request")
   | [.list (.atom "inject" :: f :: caps)] =>
     -- `Program::inject_function_captures(f, caps)` on slot A (model: `injectCaptures`)
